@@ -78,6 +78,10 @@ Step ==
             <<x.V, e.all>>)
      /\ Chk("C13", "ReturnsAsSpecified",
             (okPath /\ ~panicked /\ ~x.panics) => MatchRet(x.ret, e.ret, created), <<x.ret, e.ret>>)
+     /\ Chk("C13", "CallbackArgumentsAsStd",
+            (e.op = "dedup_by" /\ okPath /\ ~panicked /\ e.v >= 0 /\ e.v + 1 <= Len(V0) /\ V0[e.v + 1] # NoVec) =>
+               e.cbargs = DedupArgs(V0[e.v + 1], <<>>, <<>>),
+            <<e.cbargs, DedupArgs(IF e.v + 1 <= Len(V0) THEN V0[e.v + 1] ELSE <<>>, <<>>, <<>>)>>)
      /\ Chk("C13", "CapacityNeverBelowLength", e.len >= 0 => e.cap >= e.len, <<e.len, e.cap>>)
      /\ Chk("C13", "ReservedCapacityAvailable",
             (e.op \in {"reserve", "reserve_exact", "try_reserve", "try_reserve_exact"} /\ e.res = "ok" /\ e.len >= 0 /\ e.a >= 0)
